@@ -502,4 +502,32 @@ theorem qualPairs_tags (raise : Bool) (q : Quals) (l : List (Str × Str)) (h : q
     simp only [Bool.not_false, if_true]
     exact lowerStr_not_reserved key
 
+/-! ### with `raise_on_reserved_attributes=False` the rendering never refuses (used for non-vacuity examples) -/
+
+theorem qualPairs_noraise (q : Quals) : ∃ l, qualPairs false q = .ok l := by
+  induction q with
+  | nil => exact ⟨[], rfl⟩
+  | cons kv rest ih =>
+    obtain ⟨key, vals⟩ := kv
+    obtain ⟨l, hl⟩ := ih
+    simp only [qualPairs]
+    split
+    · exact ⟨l, hl⟩
+    · split
+      · simp only [Bool.false_eq_true, if_false]; exact ⟨l, hl⟩
+      · rw [hl]; exact ⟨_, rfl⟩
+
+theorem attrsStr_noraise (a : Attrs) (h : a.raiseOnReserved = false) : ∃ s, attrsStr a = .ok s := by
+  unfold attrsStr
+  rw [h]
+  obtain ⟨l, hl⟩ := qualPairs_noraise (sortQuals a.quals)
+  rw [hl]
+  exact ⟨_, rfl⟩
+
+theorem rowStr_noraise (r : Row) (h : r.attrs.raiseOnReserved = false) : ∃ line, rowStr r = .ok line := by
+  unfold rowStr
+  obtain ⟨s, hs⟩ := attrsStr_noraise r.attrs h
+  rw [hs]
+  exact ⟨_, rfl⟩
+
 end BioCantor.Proofs.GffAttrs
